@@ -775,7 +775,9 @@ def validate(ctx, recs, tag):
             raise vlib.MachineryError("TLC failed on %s:\n%s" % (f, r["out"][-3000:]))
         ctx.states += r["states"]
         ctx.transitions += r["transitions"]
-        for i, why in re.findall(r'<<"BAD", (\d+), "([^"]*)">>', r["out"]):
+        found = re.findall(r'<<"BAD", (\d+), "([^"]*)">>', r["out"])
+        vlib.expect_bad(r, len(found), "C16Trace")
+        for i, why in found:
             bad.setdefault(int(i), why)
         for i in re.findall(r'<<"REFSEM", (\d+)>>', r["out"]):
             judged.add(int(i))
